@@ -52,7 +52,9 @@ THEOREMS = {
             ("table_eq_gen", "names_sorted", "names_distinct", "names_lower_alabel", "lengths_and_types", "same_rows", "ascii_rows_equal",
              "types_equal", "domains_txt_eq")] + [("Eav.Props.C07", "Eav.Props.C07.isTld_eq_csv")],
     "C12": _gt("errEnum_eq", "specials_eq"),
-    "C13": _gt("init_values", "setup_eq", "init_sets_all"),
+    "C13": _gt("init_values", "setup_eq", "init_sets_all") + [("Eav.Props.C13", "Eav.Props.C13." + n) for n in
+            ("inv_init", "isEmail_outcome", "errstr_latest", "failed_setup_keeps_mode", "inv_setup", "free_releases", "reinit_ok",
+             "inv_settings", "run_inv", "lifecycle_releases")],
     "C14": _gt("no_mutable_globals", "externals_mt_safe") + [("Eav.Props.C14", "Eav.Props.C14.sched_indep"), ("Eav.Props.C14", "Eav.Props.C14.shared_is_empty")],
     "C15": _gt("errEnum_eq", "errors_tags", "errors_runtime", "errors_nonempty", "errors_distinct", "setup_eq"),
     "C16": _gt("errEnum_eq", "tldTypeEnum_eq") + [("Eav.Props.C16", "Eav.Props.C16." + n) for n in
